@@ -265,15 +265,41 @@ func (p *Page) CropBox() ([]float64, error) {
 	return box, nil
 }
 
+// maxInheritDepth bounds the walk up the /Parent chain (guards against cycles).
+const maxInheritDepth = 256
+
+// inheritedAttr looks up an inheritable attribute on the page itself and then on
+// each ancestor Pages node, nearest first, following /Parent up to the root.
+func (p *Page) inheritedAttr(name string) core.Object {
+	if obj := p.dict.Get(name); obj != nil {
+		return obj
+	}
+	node := p.parent
+	for depth := 0; node != nil && depth < maxInheritDepth; depth++ {
+		if obj := node.Get(name); obj != nil {
+			return obj
+		}
+		parentObj := node.Get("Parent")
+		if parentObj == nil {
+			break
+		}
+		resolved, err := p.resolver.Resolve(parentObj)
+		if err != nil {
+			break
+		}
+		next, ok := resolved.(core.Dict)
+		if !ok {
+			break
+		}
+		node = next
+	}
+	return nil
+}
+
 // getBox retrieves a box attribute (inheritable)
 func (p *Page) getBox(name string) ([]float64, error) {
-	// Try page dict first
-	boxObj := p.dict.Get(name)
-
-	// If not found, try parent (inheritable)
-	if boxObj == nil && p.parent != nil {
-		boxObj = p.parent.Get(name)
-	}
+	// Page dict first, then every ancestor Pages node (inheritable)
+	boxObj := p.inheritedAttr(name)
 
 	if boxObj == nil {
 		return nil, fmt.Errorf("%s not found", name)
@@ -314,13 +340,8 @@ func (p *Page) getBox(name string) ([]float64, error) {
 // Resources returns the page resources dictionary
 // This is inheritable
 func (p *Page) Resources() (core.Dict, error) {
-	// Try page dict first
-	resourcesObj := p.dict.Get("Resources")
-
-	// If not found, try parent (inheritable)
-	if resourcesObj == nil && p.parent != nil {
-		resourcesObj = p.parent.Get("Resources")
-	}
+	// Page dict first, then every ancestor Pages node (inheritable)
+	resourcesObj := p.inheritedAttr("Resources")
 
 	if resourcesObj == nil {
 		return nil, fmt.Errorf("resources not found")
@@ -376,13 +397,8 @@ func (p *Page) Contents() ([]core.Object, error) {
 // Rotate returns the page rotation (0, 90, 180, or 270)
 // This is inheritable
 func (p *Page) Rotate() int {
-	// Try page dict first
-	rotateObj := p.dict.Get("Rotate")
-
-	// If not found, try parent (inheritable)
-	if rotateObj == nil && p.parent != nil {
-		rotateObj = p.parent.Get("Rotate")
-	}
+	// Page dict first, then every ancestor Pages node (inheritable)
+	rotateObj := p.inheritedAttr("Rotate")
 
 	if rotateObj == nil {
 		return 0 // Default
